@@ -531,6 +531,18 @@ def run_c14_e2e(res, tier, seed, prop="C14"):
                     type_edit("lib", "pub const k", len("pub const k"), delete=1)
                     type_edit("lib", "pub fn other", len("pub fn other"), delete=1)
                 ask_all("deleted")
+                # a mistyped character corrected: a wide character is typed into the string in front of the calls, then replaced by
+                # an ASCII one in ONE change (the deleted text is wide, the inserted text ASCII), then typing goes on behind it
+                for wch in ("ü", "💣", "ℝ"):
+                    type_edit("main", '#("', 3, ins=wch)
+                    type_edit("lib", '#("', 3, ins=wch)
+                    ask_all("a wide character typed")
+                    type_edit("main", '#("', 3, ins="u", delete=1)
+                    type_edit("lib", '#("', 3, ins="u", delete=1)
+                    ask_all("the wide character replaced by an ASCII one")
+                    type_edit("main", '#("', 4, ins="x")
+                    type_edit("lib", '#("', 0, ins=" ")
+                    ask_all("typed on behind the correction")
                 # one notification with several changes: a line inserted above and characters typed in two places
                 batch_edit("main", [("import lib", 0, "// first line\n"), ("pub fn main", len("pub fn main"), "QQ"), ("lib.target", 0, " ")])
                 batch_edit("lib", [("pub fn other", 0, "\n"), ("pub const k", len("pub const k"), "zz"), ("pub fn other", len("pub fn other"), "W")])
